@@ -6,6 +6,7 @@ import (
 	"fmt"
 	"strings"
 	"unicode"
+	"unicode/utf8"
 )
 
 type Expr interface{ String() string }
@@ -92,16 +93,21 @@ var ops = []string{"<==>", "==>", "::", "&&", "||", "==", "!=", "<=", ">=", "<",
 func lex(s string) ([]token, error) {
 	var ts []token
 	i := 0
+	isIdStart := func(c rune) bool { return unicode.IsLetter(c) || c == '_' || c == '$' }
 	for i < len(s) {
-		c := rune(s[i])
+		c, w := utf8.DecodeRuneInString(s[i:])
 		if c == ' ' || c == '\t' || c == '\n' {
-			i++
+			i += w
 			continue
 		}
-		if unicode.IsLetter(c) || c == '_' || c == '$' {
-			j := i + 1
-			for j < len(s) && (unicode.IsLetter(rune(s[j])) || unicode.IsDigit(rune(s[j])) || s[j] == '_' || s[j] == '$') {
-				j++
+		if isIdStart(c) {
+			j := i + w
+			for j < len(s) {
+				d, dw := utf8.DecodeRuneInString(s[j:])
+				if !(isIdStart(d) || unicode.IsDigit(d)) {
+					break
+				}
+				j += dw
 			}
 			ts = append(ts, token{"id", s[i:j], i})
 			i = j
